@@ -129,4 +129,30 @@ func init() {
 			c13ReuseOne(c, cs)
 		},
 	})
+	// C14: "compression is used only when both sides enabled it": the second Dial's offer is that
+	// of its own compression mode although an earlier Dial used the same caller-owned header map
+	fw.Register(fw.Part{
+		Prop: "C14", Name: "reuse",
+		Units: func(tier string) []fw.Unit {
+			return []fw.Unit{{ID: "shared-header-map", Run: func(c *fw.Ctx) {
+				c.Reprefix = true
+				cases := c13ReuseCases()
+				for _, cs := range cases {
+					c13ReuseOne(c, cs)
+				}
+				c.AddStates(int64(len(cases)))
+				c.AddTransitions(int64(2 * len(cases)))
+				c.Bound("reuse_cases", len(cases))
+			}}}
+		},
+		Replay: func(c *fw.Ctx, data json.RawMessage) {
+			c.Reprefix = true
+			var cs c13ReuseCase
+			if json.Unmarshal(data, &cs) != nil {
+				c.EngineError("bad replay data")
+				return
+			}
+			c13ReuseOne(c, cs)
+		},
+	})
 }
